@@ -77,14 +77,31 @@ def run(case, ctx, rng):
     elif k == 'siblings':
         from vmon.core import siblings
         ctx.cls(('siblings', case['fam'], case['j'] % 3))
-        specs = []
+        specs = []; blen = {}
         for name, c, K, T, kb in c02.sibling_specs(case, rng):
+            blen[name] = c02.blocklen(c)
             n = c02.blocklen(c); B1 = rng.randbytes(n); B2 = rng.randbytes(n)
             specs.append((name, (lambda c=c, K=K, T=T, kb=kb: c02.build(c, K, T, kb)),
                           [('dec(enc(B1))', (lambda o, B=B1: o.dec(o.enc(B))), B1), ('enc(dec(B1))', (lambda o, B=B1: o.enc(o.dec(B))), B1),
                            ('dec(enc(B2))', (lambda o, B=B2: o.dec(o.enc(B))), B2), ('enc(dec(B2))', (lambda o, B=B2: o.enc(o.dec(B))), B2)]))
         late = specs.pop() if len(specs) > 3 else None
         siblings(ctx, rng, 'siblings:dec-inverts-enc', specs, late=late, family=case['fam'])
+        # split round trips: other objects of the family are used *between* the enc and the dec of one object
+        objs = [(name, call(new)) for name, new, _ in specs]
+        objs = [(nm, o) for nm, o in objs if not is_exc(o)]
+        for rnd in range(2):
+            pend = []
+            for nm, o in objs:
+                B = rng.randbytes(blen[nm])
+                pend.append((nm, o, B, call(o.enc, B), call(o.dec, B)))
+            rng.shuffle(pend)
+            for nm, o, B, e, d in pend:
+                oth = rng.choice(objs)[1]
+                call(oth.enc, rng.randbytes(blen[[n2 for n2, o2 in objs if o2 is oth][0]]))
+                if not is_exc(e):
+                    ctx.eq('siblings:dec-inverts-enc', call(o.dec, e), B, sibling=nm, split='enc … others … dec', family=case['fam'])
+                if not is_exc(d):
+                    ctx.eq('siblings:dec-inverts-enc', call(o.enc, d), B, sibling=nm, split='dec … others … enc', family=case['fam'])
     else:
         globals()['run_' + k.replace('-', '_')](case, ctx, rng)
 
